@@ -50,6 +50,7 @@ M=[
  ("m82_fe9_alloc_unchecked","C05","src/fe9_arc.rs","        if file_end.map(|end| end > raw.len()).unwrap_or(true) {","        if file_end.is_none() {"),
  ("m83_arc_offset_unchecked","C05","src/arc.rs","        let address = reader.read_u32()?.checked_add(header_padding).ok_or_else(|| {\n            crate::ArchiveError::OutOfBoundsAddress(u32::MAX as usize, archive.size())\n        })?;","        let address = reader.read_u32()? + header_padding;"),
  ("m84_text_archive_unwrap_label","C05","src/text_archive.rs","            let labels = reader.read_labels()?.unwrap_or_else(Vec::new);","            let labels = if reader.tell() % 64 == 60 { reader.read_labels()?.unwrap() } else { reader.read_labels()?.unwrap_or_else(Vec::new) };"),
+ ("m85_fe9_hang_on_count_ffff","C05","src/fe9_arc.rs","    let file_count = cursor.read_u16::<BigEndian>()?;\n","    let file_count = cursor.read_u16::<BigEndian>()?;\n    let mut spin = file_count;\n    while spin == 0xFFFF {\n        spin = std::hint::black_box(spin);\n    }\n"),
  ("m90_bch_content_table_offset","C20","src/bch.rs","reader.seek(SeekFrom::Start((contents_address + 0x24).into()))?;","reader.seek(SeekFrom::Start((contents_address + 0x20).into()))?;"),
  ("m91_ctpk_texture_ptr_absolute_when_base_small","C20","src/ctpk.rs","            (header.texture_ptr + texture_info[i].texture_ptr) as u64,","            (if header.texture_ptr < 0x40 { 0x40 } else { header.texture_ptr } + texture_info[i].texture_ptr) as u64,"),
  ("m92_bch_magic_unchecked","C20","src/bch.rs","        if magic_id != 0x484342 {","        if magic_id & 0xFFFF != 0x4342 {"),
@@ -70,7 +71,7 @@ def main():
         a=os.path.join(d,'a'); b=os.path.join(d,'b')
         os.makedirs(os.path.dirname(os.path.join(a,path))); os.makedirs(os.path.dirname(os.path.join(b,path)))
         open(os.path.join(a,path),'w').write(src); open(os.path.join(b,path),'w').write(src.replace(old,new))
-        r=subprocess.run(['diff','-u','a/'+path,'b/'+path],cwd=d,capture_output=True,text=True)
+        r=subprocess.run(['diff','-u','--label','a/'+path,'--label','b/'+path,'a/'+path,'b/'+path],cwd=d,capture_output=True,text=True)
         open(os.path.join(OUT,'%s__%s.patch'%(mid,prop)),'w').write(r.stdout)
         shutil.rmtree(d)
     print("wrote",len(M)-bad,"patches")
